@@ -10,7 +10,11 @@ from props.c04 import deflate_reply, violating_frames, CLASSES
 B = wire.build_frame
 
 A_KINDS = ["cut", "cut_open_fragment", "cut_compressed", "client_closing", "server_close", "rejected",
-           "connect_fail", "abandon_break", "abandon_raise", "protocol_error", "timers", "oversize_reply"]
+           "connect_fail", "abandon_break", "abandon_raise", "protocol_error", "timers", "oversize_reply",
+           # abandoned with the generator object still referenced; it is only finalised after the NEXT connect() call
+           # (``events = ws.connect()`` re-using the variable) or while the next connection is running
+           "abandon_hold"]
+RELEASE_POINTS = ["after_connect", "after_connect", 0, 1, 2, 3, 4, 6]
 
 
 def deflate_stream(seed_payloads, peer):
@@ -68,9 +72,14 @@ def attempt_A(a, deflate):
         return {"script": [["wait_request"],
                            ["stream", [["reply", reply], ["bytes", B(wire.CLOSE, struct.pack("!H", 1000) + b"srv")]], "whole", 0.0],
                            ["reset", 0.5]], "reactions": sends}
-    if kind in ("abandon_break", "abandon_raise"):
+    if kind in ("abandon_break", "abandon_raise", "abandon_hold"):
         built = build.build_session(a["msgs"] + [{"kind": "text", "payload": ["str", "tail"], "frag": [2]}])
-        mech = "break" if kind == "abandon_break" else "raise"
+        mech = {"abandon_break": "break", "abandon_raise": "raise", "abandon_hold": "hold"}[kind]
+        if kind == "abandon_hold":
+            # any event index from Connected on (index 1), incl. idle Polls from the top of the loop
+            return {"script": [["wait_request"], ["stream", [["reply", reply], ["bytes", bytes(built.data)]], ["uniform", 5], 0.0],
+                               ["pause", 3.0], ["eof", 5.0]], "connect_opts": {"poll": 1.0, "ping_rate": 0},
+                    "reactions": sends + [{"when": ["index", 1 + a.get("frac", 0) % 9], "do": [[mech]]}]}
         return {"script": [["wait_request"], ["stream", [["reply", reply], ["bytes", bytes(built.data)]], ["uniform", 5], 0.0],
                            ["eof", 5.0]],
                 "reactions": sends + [{"when": ["index", 2 + a.get("frac", 0) % 6], "do": [[mech]]}]}
@@ -158,18 +167,21 @@ class C17(Prop):
     rule = ("metamorphic: a chain of 1-4 previous connections with ABNORMAL endings (stream cut mid-reply / mid-header / "
             "mid-payload / inside an unfinished fragmented message with half a UTF-8 character / inside a compressed message with "
             "context takeover / while the client is closing / after the server's Close; rejected; oversize reply; connect failure; "
-            "protocol error; armed timers; abandoned by break or exception) followed by a connection B (conforming session with or "
+            "protocol error; armed timers; abandoned by break or exception, or abandoned with the generator "
+            "kept referenced and only finalised right after the next connect() call or at a drawn event of the next connection) followed by a connection B (conforming session with or "
             "without compression and client sends, injected violation, closing handshakes, timers) on ONE WebSocket object; B's "
             "trace (events with payloads and times relative to Connecting, unmasked client frames, request) must equal B's trace "
             "on a freshly constructed object, and successive requests carry the successive keys drawn. Non-trivial = some previous "
             "connection reached Ready (so parser/fragment/deflate/closing/timer state was non-initial) and B reaches Ready.")
-    assumptions = ("the previous connection's generator has been finalised before the next connect() (as persist() does)",)
+    assumptions = ("a previous connection's generator is either finalised before the next connect() (as persist() does) or, "
+                   "for the abandon_hold histories, dropped at a stated later point; it is never resumed after the next connect()",)
     examples = {"quick": 2500, "thorough": 50000}
 
     def strategy(self, tier):
         a = st.fixed_dictionaries({
             "kind": st.sampled_from(A_KINDS), "frac": st.integers(0, 1000),
-            "msgs": st.lists(gen.message(big=False), max_size=4), "end": st.sampled_from(["eof", "reset"])})
+            "msgs": st.lists(gen.message(big=False), max_size=4), "end": st.sampled_from(["eof", "reset"]),
+            "release": st.sampled_from(RELEASE_POINTS)})
         b = st.fixed_dictionaries({
             "msgs": st.lists(gen.message(big=False), max_size=5), "cmask": st.integers(0, 63),
             "viol": st.one_of(st.none(), st.none(), st.integers(0, 40)),
@@ -196,17 +208,35 @@ class C17(Prop):
                             yield {"A": [{"kind": kind, "frac": frac, "msgs": [{"kind": "text", "payload": ["str", "prev"],
                                                                                  "frag": [2]}], "end": "eof"}],
                                    "B": b, "deflate": deflate}
-        return [Enumeration("every_abnormal_ending_x_B", pairs, exhaustive=True)]
+
+        def held_generators():
+            # abandoned at every event index 1..9 with the generator kept alive x every point of release
+            b0 = {"msgs": [{"kind": "text", "payload": ["str", "h\u00e9llo"], "frag": [3]}, {"kind": "ping", "payload": ["hex", "01"]}],
+                  "cmask": 0, "viol": None, "close": True, "app_close": None, "timers": False, "idle": 2, "seg": "whole",
+                  "deflate": False}
+            for frac in range(9):
+                for release in sorted(set(RELEASE_POINTS), key=str):
+                    for msgs in ([], [{"kind": "text", "payload": ["str", "prev"], "frag": [2]}]):
+                        yield {"A": [{"kind": "abandon_hold", "frac": frac, "msgs": msgs, "end": "eof", "release": release}],
+                               "B": b0, "deflate": False}
+        return [Enumeration("every_abnormal_ending_x_B", pairs, exhaustive=True),
+                Enumeration("generator_of_the_abandoned_connection_finalised_late", held_generators, exhaustive=True)]
 
     def run_case(self, case):
         deflate = case["deflate"]
         atts = [attempt_A(a, deflate) for a in case["A"]]
         deflate_b = case["B"].get("deflate", deflate)
         attB = attempt_B(case["B"], deflate_b)
+        chainB = dict(attB)
+        for i, a in enumerate(case["A"]):
+            if a["kind"] == "abandon_hold":
+                # the attempt after it says when the kept generator is finally dropped
+                nxt = atts[i + 1] if i + 1 < len(atts) else chainB
+                nxt["release_held"] = a.get("release", "after_connect")
         n = len(atts)
         keys = ["%032x" % (0x1000 + i) for i in range(n + 2)]
         ws_opts = {"compress": True} if (deflate or deflate_b) else None
-        chain = {"url": build.URL, "attempts": atts + [attB], "keys": keys}
+        chain = {"url": build.URL, "attempts": atts + [chainB], "keys": keys}
         fresh = {"url": build.URL, "attempts": [attB], "keys": [keys[0], keys[n + 1]]}
         if ws_opts:
             chain["ws_opts"] = ws_opts
